@@ -28,12 +28,14 @@ Section Statement.
 
   Definition FSOK (fs : FS) : Prop := NoDup (map fst fs).
 
-  (* full statement: every history, starting from the empty cache, every final state *)
+  (* full statement: every history, starting from the empty cache, every final state.  The runs are numbered
+     0, 1, ...; the warm run after history h is run number (length h). *)
   Definition warm_equals_cold_for_all_histories : Prop :=
-    forall (h : list (FS * opts)) (fs : FS) (o : opts) (n n' : nat),
+    forall (h : list (FS * opts)) (fs : FS) (o : opts) (n' : nat),
       (forall fs' o', In (fs', o') h -> FSOK fs') -> FSOK fs ->
       output fs (warm content_of imports probes analyze sccs_of reach sdo_of thash ign_of blocker
-                      (runs content_of imports probes analyze sccs_of reach sdo_of thash ign_of blocker empty_store 0 h) fs o n)
+                      (runs content_of imports probes analyze sccs_of reach sdo_of thash ign_of blocker empty_store 0 h)
+                      fs o (length h))
       = output fs (cold content_of imports probes analyze sccs_of reach sdo_of thash ign_of blocker fs o n').
 End Statement.
 
